@@ -13,7 +13,7 @@
    the word `a`, SPARQL means rdf:type).  Terms include RDF-star quoted triples `Qt s p o`; the
    legality filters of quoted triples (is_legal_quoted_triple) are part of model and Spec. *)
 Require Import KV.Update.Spec KV.Update.Model KV.Update.Bgp KV.Update.SetProofs KV.Update.InstProofs
-  KV.Update.Proofs KV.Update.BgpProofs.
+  KV.Update.Proofs KV.Update.BgpProofs KV.Update.Run KV.Update.RunProofs.
 Require Import Permutation.
 
 (* One executed operation has exactly the standard effect: the WHERE clause is evaluated once on the
@@ -133,6 +133,14 @@ Theorem C03_set_order :
     snd r = snd r' /\ Permutation (dq (fst r)) (dq (fst r')) /\ (forall g, In g (dc (fst r)) <-> In g (dc (fst r'))).
 Proof. exact apply_mutations_perm. Qed.
 Print Assumptions C03_set_order.
+
+(* Every initial state of the correspondence check (Run.mk_state: quads added one by one, empty
+   graphs created, extra dictionary entries) is well formed, so C03_history covers every history
+   the check runs. *)
+Theorem C03_initial_states_wf :
+  forall (init : list quad) (graphs seed : list term), wf (mk_state init graphs seed).
+Proof. exact mk_state_wf. Qed.
+Print Assumptions C03_initial_states_wf.
 
 (* ---- non-vacuity ---- *)
 (* the hypothesis of C03_history is met by the executable evaluator, and the empty store is well formed *)
